@@ -463,6 +463,52 @@ def r_premise(ctx):
 
 
 
+@rule("C13.R7", "root search window: alpha and beta are reset together (a pass never starts with one stale bound)")
+def r7(ctx):
+    """White only ever tightens alpha and Black only beta (R1): a bound that survives from the previous pass on one side only makes the two colours search differently."""
+    P = ctx.P
+    key = P.find_fn("Engine::search_with", "chess_engine")
+    ctx.used_body(key)
+    body = P.body(key)
+    c = cfg_of(body)
+    ab = P.find_fn("Engine::alphabeta", "chess_engine")
+    ARGS = ENG + "AlphaBetaArgs"
+    resets = {"alpha": set(), "beta": set()}
+    for bi, blk in enumerate(body["blocks"]):
+        for s in blk["s"]:
+            if s["k"] != "assign":
+                continue
+            r = s.get("r", {})
+            if r.get("k") == "agg" and r.get("adt") == ARGS:
+                ops = dict(zip(r["fields"], r["ops"]))
+                for f_ in ("alpha", "beta"):
+                    if f_ in ops:
+                        resets[f_].add(bi)
+            pj = s["p"]["pj"]
+            if pj and isinstance(pj[-1], dict) and pj[-1].get("a") == ARGS and pj[-1].get("n") in ("alpha", "beta"):
+                resets[pj[-1]["n"]].add(bi)
+    # a private helper that builds the arguments (both bounds at once) counts at its call sites
+    for f in k2.private_closure(P, key) - k2.private_closure(P, ab):
+        if f == key or "{closure" in f:
+            continue
+        fb = P.body(f)
+        builds = [dict(zip(s["r"]["fields"], s["r"]["ops"])) for blk in fb["blocks"] for s in blk["s"] if s["k"] == "assign" and s.get("r", {}).get("k") == "agg" and s["r"].get("adt") == ARGS]
+        for bi, t_ in P.calls(key):
+            if t_["f"].get("fn") == f:
+                for f_ in ("alpha", "beta"):
+                    if any(f_ in b_ for b_ in builds):
+                        resets[f_].add(bi)
+    ctx.floor("root window initialisations", len(resets["alpha"]) + len(resets["beta"]), 2)
+    calls = [bi for bi, t_ in P.calls(key) if T.strip_generics(t_["f"].get("fn", "")) == ab]
+    ctx.floor("root alphabeta calls", len(calls), 1)
+    # the deepening loop: the outermost loop that contains a root alphabeta call
+    loops = [bl for h, bl in c.loops().items() if any(b_ in bl for b_ in calls)]
+    outer = max(loops, key=len) if loops else set()
+    in_a, in_b = bool(resets["alpha"] & set(outer)), bool(resets["beta"] & set(outer))
+    ctx.ob("alpha/beta reset together", in_a == in_b and bool(outer), f"inside the deepening loop alpha is reset: {in_a}, beta is reset: {in_b}; they must be reset together (Score::Min / Score::Max) or not at all",
+           site=body.get("def_span"), sample={"alpha_reset_in_loop": in_a, "beta_reset_in_loop": in_b})
+
+
 # ------------------------------------------------------------------ controls
 def _worst_same(P):
     b = P.own("const_bodies", f"<{ENG}Black as {ENG}Policy>::WORST_SCORE")
